@@ -68,12 +68,12 @@ CHECKS = {
          "DESIGN.md 6/C15"),
  "C16": ("exploration",
          "deterministic simulation: GC policy against a GC model at exact cut-off boundaries (simulated server clock), a GC pass as a scheduled task racing add-only writers (seeded schedules), and the quiescence rule under a simulated wall clock",
-         "Exact condemnation per rule tree at now-age +-1 us; no acknowledged write is lost or reverted by a concurrently running pass (GC(M) <= final <= M per row); a non-forced pass shortly after activity collects nothing; no deadlock/livelock.",
+         "Exact condemnation per rule tree at now-age +-1 us; no acknowledged write is lost or reverted by a concurrently running pass (GC(M) <= final <= M per row); a non-forced pass shortly after activity - or while a scan of the table is between two of its messages - collects nothing; a rule relaxed during a pass applies from then on; the real GC loop runs a round next to schema changes; no deadlock/livelock.",
          "Trusted: the GC model, cooperative mutexes, the stubbed gcloop timer (the pass is real code).",
          "DESIGN.md 6/C16"),
  "C18": ("exploration",
          "deterministic simulation: seeded schedules of one multi-message scan against 1-3 writers (one writer per row), window oracle over the recorded per-row state sequences",
-         "Ascending keys without duplicates, every returned row a state that row had inside the scan window, unwritten rows exact, final status OK; leveldb engines (memory and disk).",
+         "Ascending keys without duplicates, every returned row a state that row had inside the scan window, unwritten rows exact, final status OK; leveldb engines (memory and disk); transports that serialise lazily, consumers that write before they read on, clients that go away.",
          "Trusted: the stream seam (Send yields with the table lock released), cooperative mutexes.",
          "DESIGN.md 6/C18"),
  "C01": ("exploration",
@@ -103,7 +103,7 @@ CHECKS = {
          "DESIGN.md 6/C14"),
  "C19": ("exploration",
          "deterministic simulation: seeded baton-passing scheduler over the lock map's internal steps, cancellation events as faults, invariants at every step",
-         "Seeded search over interleavings of 2-4 tasks x 1-3 rounds x 1-2 keys with context cancellations on the real TransientLockMap; mutual exclusion, cancel safety, progress (deadlock/livelock verdicts), bad-unlock panic and emptiness at quiescence are checked in every run. Sampling, not the exhaustive enumeration the quantifier asks for; the number of distinct interleavings is reported.",
+         "Seeded search over interleavings of 2-4 tasks x 1-3 rounds x 1-2 keys with context cancellations on the real TransientLockMap; mutual exclusion, cancel safety, progress (deadlock/livelock verdicts), bad-unlock panic and emptiness at quiescence are checked in every run. Sampling, not the exhaustive enumeration the quantifier asks for; the number of distinct interleavings is reported. A supplement (runtime monitoring on real goroutines, reported separately) covers windows without a scheduling point and a wait of several seconds of real time; a hang that reproduces from the seed in a fresh process is a violation.",,
          "Trusted: the scheduler hooks (yields between the internal steps; wait-until in front of the channel send). The Go runtime's choice between two ready select cases is not explored.",
          "DESIGN.md 6/C19"),
 }
